@@ -17,12 +17,12 @@ namespace TJ.MiniC
 /-- the block a pointer value designates -/
 def ptrBlock (p : Nat) : Nat := p / ptrBase - 1
 
-/-- blocks written by an event -/
+/-- blocks written by an event (a zero-length memcpy/memset/delivery writes nothing) -/
 def evWrites : Ev → List Nat
   | .wr p _ => [ptrBlock p]
-  | .cp d _ _ => [ptrBlock d]
-  | .set d _ => [ptrBlock d]
-  | .ent p _ => [ptrBlock p]
+  | .cp d _ n => if n = 0 then [] else [ptrBlock d]
+  | .set d n => if n = 0 then [] else [ptrBlock d]
+  | .ent p n => if n = 0 ∨ p / ptrBase = 0 then [] else [ptrBlock p]
   | _ => []
 
 /-- blocks actually read or written by an event (a zero-length memcpy/memset/delivery touches nothing — the library does
@@ -130,7 +130,8 @@ theorem deliver_frame (st : St) (buf size : Nat) (r : LVal) (st1 : St) (h : deli
     simp only at e2
     subst e2
     exact ⟨rfl, [.ent buf size], rfl, fun _ _ => rfl⟩
-  · cases hr : resolve st.mem buf 1 with
+  · rename_i hn
+    cases hr : resolve st.mem buf 1 with
     | error k => rw [hr] at h; cases h
     | ok bo =>
       obtain ⟨b0, off⟩ := bo
@@ -143,10 +144,15 @@ theorem deliver_frame (st : St) (buf size : Nat) (r : LVal) (st1 : St) (h : deli
         simp only at e2
         subst e2
         refine ⟨size_setBlock' _ _ _, [.ent buf size], rfl, fun b hb => ?_⟩
+        have hnz : ¬ (size = 0 ∨ buf / ptrBase = 0) := by
+          intro hc
+          rcases hc with hc | hc
+          · apply hn; rw [hc]; exact Nat.min_zero _
+          · simp only [resolve, hc, if_true] at hr; cases hr
         have hne : b ≠ b0 := by
           intro e
           have := hb (.ent buf size) (List.mem_singleton.mpr rfl)
-          simp only [evWrites, List.mem_singleton] at this
+          simp only [evWrites, hnz, if_false, List.mem_singleton] at this
           exact this (e ▸ resolve_block hr)
         exact getElem?_setBlock_ne _ _ _ _ hne
 
@@ -348,7 +354,8 @@ theorem exec_frame (prog : Program) (fuel : Nat) : ∀ (s : Stmt) (env : Env) (s
             · trivial
             · split
               · exact ⟨rfl, [Ev.cp pd ps vn], rfl, fun _ _ => rfl⟩
-              · cases resolve st.mem ps 1 with
+              · rename_i hvn
+                cases resolve st.mem ps 1 with
                 | error k => trivial
                 | ok bo =>
                   obtain ⟨bs, offs⟩ := bo
@@ -365,7 +372,7 @@ theorem exec_frame (prog : Program) (fuel : Nat) : ∀ (s : Stmt) (env : Env) (s
                       · apply frameOk_write
                         intro b hb e
                         apply hb
-                        simp only [evWrites, List.mem_singleton]
+                        simp only [evWrites, hvn, if_false, List.mem_singleton]
                         rw [e]; exact resolve_block hr
     | memset d v cnt =>
       simp only [exec]
@@ -388,7 +395,8 @@ theorem exec_frame (prog : Program) (fuel : Nat) : ∀ (s : Stmt) (env : Env) (s
             · trivial
             · split
               · exact ⟨rfl, [Ev.set pd vn], rfl, fun _ _ => rfl⟩
-              · cases hr : resolve st.mem pd 1 with
+              · rename_i hvn
+                cases hr : resolve st.mem pd 1 with
                 | error k => trivial
                 | ok bo2 =>
                   obtain ⟨bd, offd⟩ := bo2
@@ -398,7 +406,7 @@ theorem exec_frame (prog : Program) (fuel : Nat) : ∀ (s : Stmt) (env : Env) (s
                   · apply frameOk_write
                     intro b hb e
                     apply hb
-                    simp only [evWrites, List.mem_singleton]
+                    simp only [evWrites, hvn, if_false, List.mem_singleton]
                     rw [e]; exact resolve_block hr
     | entropy dst buf =>
       simp only [exec]
